@@ -418,9 +418,9 @@ class Parser:
             if k not in RESERVED:
                 self.err("unexpected variable in rule")
             r.bindings[k] = parts
-        if b"command" not in r.bindings:
+        if not r.bindings.get(b"command"):
             self.err("rule without command")
-        if (b"rspfile" in r.bindings) != (b"rspfile_content" in r.bindings):
+        if bool(r.bindings.get(b"rspfile")) != bool(r.bindings.get(b"rspfile_content")):
             self.err("rspfile and rspfile_content go together")
         self.scope.rules[name] = r
 
